@@ -103,3 +103,16 @@
             let k = choose|k: int| 0 <= k <= view.len() && nv == #[trigger] view.insert(k, (p, s));
             lemma_stored_insert(view, k, (p, s));
         }
+
+        /// C06/C01: an item recorded at address a of bank b sits at outp_b + p with a = addr_b + p / unit_b, inside
+        /// the bank's window
+        pub open spec fn placed_in(defs: &asm::ItemDefs, sp: util::BitVecSpan, b: int) -> bool {
+            &&& 0 <= b < defs.bankdefs.defs@.len() && defs.bankdefs.defs@[b] is Some
+            &&& bank_at(defs, b).output_offset is Some
+            &&& sp.offset is Some && sp.offset->0 >= bank_at(defs, b).output_offset->0
+            &&& sp.addr.val() == crate::asm::resolver::address_of(bank_at(defs, b), sp.offset->0 - bank_at(defs, b).output_offset->0)
+            &&& (bank_at(defs, b).size is Some ==> sp.offset->0 - bank_at(defs, b).output_offset->0 + sp.size <= bank_at(defs, b).size->0)
+        }
+        pub open spec fn items_placed(defs: &asm::ItemDefs, ss: Seq<util::BitVecSpan>) -> bool {
+            forall|i: int| 0 <= i < ss.len() && (#[trigger] ss[i]).offset is Some && ss[i].size > 0 ==> exists|b: int| #[trigger] placed_in(defs, ss[i], b)
+        }
